@@ -50,6 +50,11 @@ func spin() -> int {
 }
 func main(n : int) -> int { cnt = 1000 - (n > 1000 ? 1000 : n); spin() }
 """ % rng.range(1, 5), dict(tail=True, cap=1000)))
+    out.append(("tail_noparam_expr", """
+var cnt = 0;
+func spin() -> int { (cnt = cnt + 1) < 1000000 ? spin() : cnt %% %d }
+func main(n : int) -> int { cnt = 1000000 - n; spin() }
+""" % rng.range(1000, 9000), dict(tail=True)))
     out.append(("tail_rec_arm", """
 enum Cmd { Step { by : int; left : int; }, Done }
 func cmd(n : int) -> Cmd { n <= 0 ? Cmd::Done : Cmd::Step(%d, n - 1) }
